@@ -5,6 +5,7 @@ mod c05;
 mod c06;
 mod c08b;
 mod c17;
+mod c19;
 mod common;
 mod uper;
 
@@ -25,6 +26,7 @@ fn main() {
         "C08" => c08b::run(ctx),
         "C16" => uper::run_c16b(ctx),
         "C17" => c17::run(ctx),
+        "C19" => c19::run(ctx),
         other => {
             eprintln!("vrt does not serve {other}");
             2
